@@ -1250,8 +1250,17 @@ where
                     if offset_table.is_none() {
                         offset_table = Some(Vec::new())
                     }
+                    // the first item has ended, even if it was empty
+                    // (an empty item yields no value token)
+                    first = false;
                 }
-                LazyDataToken::ItemStart { len: _ } => { /* no-op */ }
+                LazyDataToken::ItemStart { len } => {
+                    // an empty fragment yields no value token,
+                    // but it is a fragment nonetheless
+                    if len == Length(0) && !first {
+                        fragments.push(Vec::new());
+                    }
+                }
                 LazyDataToken::SequenceEnd => {
                     // end of pixel data
                     break;
